@@ -110,7 +110,7 @@ MCInit == wl \in Workloads /\ s = InitState
 MCSpec == MCInit /\ [][Next]_vars
 
 (* the scheduler may die at any moment only in the restart family *)
-DieAnywhere == Family = "restart" /\ Running /\ Op.op = "kill" /\ Die
+DieAnywhere == Family = "restart" /\ Running /\ Op.op = "kill" /\ (Die \/ \E i \in Insts : DieAfterSpawn(i))
 MCNextR == Next \/ DieAnywhere
 MCSpecR == MCInit /\ [][MCNextR]_vars
 
